@@ -42,7 +42,7 @@ for tier in ("quick", "thorough"):
     try:
         t0 = time.time()
         pre = "" if MODE == "repo" else f"VERIF_REPO={wt} "
-        rc, o = sh(f"cd /verif && {pre}bin/check {pid} {tier} 2>&1 | grep -v '^Exception in callback\\|^handle:' | tail -15", timeout=7200)
+        rc, o = sh(f"cd /verif && {pre}bin/check {pid} {tier} 2>&1 | grep -v '^Exception in callback\\|^handle:' | tail -15", timeout=(600 if tier == "quick" else 2400))
         viol = [l for l in o.splitlines() if l.startswith("VIOLATION")]
         summ = [l for l in o.splitlines() if l.startswith(f"[{pid}]")]
         res[tier] = {"violations": viol[:5], "summary": summ[-1] if summ else o[-300:], "wall_s": round(time.time() - t0)}
